@@ -7,7 +7,11 @@ Three links (DESIGN.md §6 C06):
      pair and triple of operators (finite, vm_compute); when that obligation breaks, the disagreeing token lists are computed by the model
      and replayed on the real parser to obtain a failing input;
  (3) correspondence: generated trees of the whole expression language, rendered minimally / fully parenthesised / with one needed pair
-     removed, with token-preserving layouts and literals in every spelling -> dv ast (parse_expression / parse_unary_tests) -> compare trees.
+     removed, with token-preserving layouts and literals in every spelling -> dv ast (parse_expression / parse_unary_tests) -> compare trees;
+ (4) coq/C06/Actions.v: parse_full = the loop of Parser::parse over the regenerated tables with ALL 90 semantic actions of parser.rs on the node
+     stack (a model of the real parser on token lists for the whole language); every generated case (all constructs, all renderings) and a list
+     of directed inputs (types, external bodies, date and time literals, the six entry points, rejected inputs) is tokenised and run through it:
+     the real parser must build the same tree node by node (or both reject).  coq/C06/ActionsProofs.v: stack safety of every rule, round trip of lists.
 """
 import json
 import os
@@ -624,7 +628,7 @@ class Ids:
             return [('instance', 'kw'), ('of', 'kw'), (self.types[tok.args[0]][0], 'atom')]
         if n == 'TDot':
             return [('.', ''), (self.names[tok.args[0]], 'atom')]
-        return [({'TLp': '(', 'TRp': ')', 'TLb': '[', 'TRb': ']', 'TBetween': 'between', 'TBand': 'and'}[n], 'kw' if n in ('TBetween', 'TBand') else '')]
+        return [({'TLp': '(', 'TRp': ')', 'TLb': '[', 'TRb': ']', 'TBetween': 'between', 'TBand': 'and'}[n], 'kwband' if n == 'TBand' else 'kw' if n == 'TBetween' else '')]
 
     def tree_ast(self, c):
         """Coq tree (parsed term) -> expected harness AST."""
@@ -732,6 +736,313 @@ def has_multi_comment(text):
 
 def surrogate_spelled(t):
     return any(s[0] == 'atom' and 'surr' in s[1].get('spell', []) for s in all_nodes(t))
+
+
+# ------------------------------------------------------------------------------------------------ full model: tables + ALL semantic actions
+# coq/C06/Actions.v: parse_full = the loop of Parser::parse over the regenerated tables with the 90 reduce actions of parser.rs on the node stack.
+# Tokens carry the lexer's TokenValue; texts (names, digit strings, string contents, type names) are interned as numbers.
+HEADER_ACT = ('From Coq Require Import List NArith ZArith Bool String.\nFrom DV Require Import Gen.LalrTables C06.Actions.\nImport ListNotations.\n'
+              'Open Scope Z_scope.\nDefinition k (t : Z) : ftok := (t, VTok t).\n')
+TYPE_NAMES = ('number', 'string', 'boolean', 'date', 'Any')
+KW_TOK_MORE = {'list': 'List', 'range': 'Range', 'context': 'Context', 'external': 'External', '->': 'RightArrow'}
+START_TOK = {'expr': 'StartExpression', 'unary': 'StartUnaryTests', 'textual': 'StartTextualExpression', 'textuals': 'StartTextualExpressions',
+             'boxed': 'StartBoxedExpression', 'context': 'StartContext'}
+
+
+class Texts:
+    """Texts <-> the numbers that stand for them in the model's tokens and trees."""
+
+    def __init__(self):
+        self.ids, self.texts = {}, []
+
+    def id(self, s):
+        if s not in self.ids:
+            self.ids[s] = len(self.texts)
+            self.texts.append(s)
+        return self.ids[s]
+
+
+def atoms_of(t):
+    """text -> generated AST of every literal / name / endpoint of a generated tree (the token values the lexer must deliver)."""
+    out = {}
+    roots = t[2] if t and t[0] == 'unary' else [t]
+    for r in roots:
+        if not (isinstance(r, tuple) and r and r[0] in KINDS):
+            continue
+        for n in all_nodes(r):
+            if n[0] == 'atom':
+                out[n[1]['text']] = n[1]['ast']
+            elif n[0] == 'ucmp':
+                out[n[2]['text']] = n[2]['ast']
+            elif n[0] == 'range':
+                out[n[2]['text']] = n[2]['ast']
+                out[n[3]['text']] = n[3]['ast']
+    return out
+
+
+def full_tokens(toks, mode, atoms, texts):
+    """Renderer tokens -> Coq list of (TokenType, TokenValue) for Actions.parse_full; None when a token value is not known here."""
+    out = ['k tok_' + START_TOK[mode]]
+    for tx, fl in toks:
+        if fl == 'kwband':
+            out.append('k tok_BetweenAnd')
+        elif fl in ('kw', 'nolayout') and tx in KW_TOK:
+            out.append('k tok_' + KW_TOK[tx])
+        elif fl in ('kw', 'nolayout') and tx in KW_TOK_MORE:
+            out.append('k tok_' + KW_TOK_MORE[tx])
+        elif fl == 'dt':
+            out.append('(tok_NameDateTime, VNameDateTime %d%%N)' % texts.id(tx))
+        elif fl in ('atom', 'bind'):
+            if tx.startswith('"'):
+                a = atoms.get(tx)
+                val = a[1] if (a and a[0] == 'String') else (tx[1:-1] if ('\\' not in tx) else None)
+                if val is None:
+                    return None
+                out.append('(tok_String, VString %d%%N)' % texts.id(val))
+            elif tx.startswith('@'):
+                a = atoms.get(tx)
+                if not a or a[0] != 'At':
+                    return None
+                out += ['k tok_At', '(tok_String, VString %d%%N)' % texts.id(a[1])]
+            elif tx == '-1':
+                out += ['k tok_Minus', '(tok_Numeric, VNumeric %d%%N %d%%N)' % (texts.id('1'), texts.id(''))]
+            elif tx[0].isdigit() or tx[0] == '.':
+                a = atoms.get(tx)
+                if not a or a[0] != 'Numeric':
+                    return None
+                out.append('(tok_Numeric, VNumeric %d%%N %d%%N)' % (texts.id(a[1]), texts.id(a[2])))
+            elif tx in ('true', 'false'):
+                out.append('(tok_Boolean, VBoolean %s)' % tx)
+            elif tx == 'null':
+                out.append('k tok_Null')
+            elif tx in TYPE_NAMES:
+                out.append('(tok_BuiltInTypeName, VBuiltInTypeName %d%%N)' % texts.id(tx))
+            else:
+                out.append('(tok_Name, VName %d%%N)' % texts.id(tx))
+        elif tx in SYM_TOK:
+            out.append('k tok_' + SYM_TOK[tx])
+        elif tx in KW_TOK_MORE:
+            out.append('k tok_' + KW_TOK_MORE[tx])
+        else:
+            return None
+    return '[' + '; '.join(out) + ']'
+
+
+def model_json(texts, t):
+    """Tree printed by the model (constructors of Actions.ast) -> the JSON shape of dv ast."""
+    if isinstance(t, bool):
+        return t
+    if isinstance(t, int):
+        return texts.texts[t]
+    if t.name == 'AFeelTypeAny':
+        return ['FeelType', 'Any']
+    out = [t.name[1:].replace('Params', 'Parameters').replace('ParamT', 'ParameterT').replace('ParamN', 'ParameterN')]
+    if out[0].endswith('Param'):
+        out[0] += 'eter'
+    for a in t.args:
+        if isinstance(a, list):
+            out += [model_json(texts, x) for x in a]
+        else:
+            out.append(model_json(texts, a))
+    return out
+
+
+def spec_tokens(spec):
+    """A directed case written as a list of token texts (or (text, flag) pairs) -> renderer tokens."""
+    out = []
+    for i, x in enumerate(spec):
+        if isinstance(x, tuple):
+            out.append(x)
+        elif x in KW_TOK or x in KW_TOK_MORE:
+            out.append((x, 'nolayout' if x in ('function', 'not') else 'kw'))
+        elif x in SYM_TOK:
+            out.append((x, ''))
+        else:
+            out.append((x, 'atom'))
+    return out
+
+
+# directed inputs for the actions the tree generator does not reach (types, external bodies, date and time literals, the other
+# entry points); the expected tree is the model's: the real parser must accept and give exactly that tree
+DIRECTED = [
+    ('expr', ['a', 'instance', 'of', 'list', '<', 'number', '>']),
+    ('expr', ['a', 'instance', 'of', 'range', '<', 'date', '>']),
+    ('expr', ['a', 'instance', 'of', 'list', '<', 'list', '<', 'string', '>', '>', 'or', 'b']),
+    ('expr', ['a', 'instance', 'of', 'context', '<', ('x', 'bind'), ':', 'number', '>']),
+    ('expr', ['a', 'instance', 'of', 'context', '<', ('x', 'bind'), ':', 'number', ',', ('y', 'bind'), ':', 'list', '<', 'string', '>', ',', ('z', 'bind'), ':', 'Any', '>']),
+    ('expr', ['a', 'instance', 'of', 'function', '<', '>', '->', 'number']),
+    ('expr', ['a', 'instance', 'of', 'function', '<', 'number', '>', '->', 'string']),
+    ('expr', ['a', 'instance', 'of', 'function', '<', 'number', ',', 'string', ',', 'list', '<', 'date', '>', '>', '->', 'range', '<', 'number', '>']),
+    ('expr', ['a', 'instance', 'of', 'b']),
+    ('expr', ['a', 'instance', 'of', 'b', '.', 'c']),
+    ('expr', ['a', 'instance', 'of', 'b', '.', 'c', '.', 'x']),
+    ('expr', ['function', '(', ('i', 'bind'), ',', ('j', 'bind'), ':', 'number', ')', 'external', '{', ('java', 'bind'), ':', '{', ('class', 'bind'), ':', '"c"', '}', '}']),
+    ('expr', ['function', '(', ')', 'external', 'a']),
+    ('expr', ['function', '(', ('i', 'bind'), ':', 'list', '<', 'number', '>', ',', ('j', 'bind'), ':', 'context', '<', ('x', 'bind'), ':', 'string', '>', ',', ('k', 'bind'), ')', 'a']),
+    ('expr', [('date', 'dt'), '(', '"2021-02-03"', ')']),
+    ('expr', [('time', 'dt'), '(', ')']),
+    ('expr', [('date and time', 'dt'), '(', 'a', ',', 'b', ')']),
+    ('expr', [('duration', 'dt'), '(', ('from', 'bind'), ':', 'a', ')', '+', 'b']),
+    ('expr', ['a', '.', 'b', '.', 'c', '.', 'x']),
+    ('expr', ['a', 'in', '(', ']', 'a', '..', 'b', '[', ',', 'b', ',', '<', 'c', '.', 'x', ')']),
+    ('expr', ['[', ']']),
+    ('expr', ['{', '}']),
+    ('expr', ['[', '[', ']', ',', '{', '}', ',', '[', 'a', ']', ']']),
+    ('expr', ['a', '(', ')', '(', 'b', ')', '(', ('p', 'bind'), ':', 'c', ')']),
+    ('expr', ['(', 'a', '..', 'b', ')']),
+    ('expr', ['[', 'a', '.', 'b', '..', '"z"', ']']),
+    ('textual', ['a', '+', 'b']),
+    ('textual', ['if', 'a', 'then', 'b', 'else', 'c']),
+    ('textuals', ['a']),
+    ('textuals', ['a', ',', 'b', '+', '1', ',', '(', 'a', ')']),
+    ('boxed', ['[', 'a', ',', 'b', ']']),
+    ('boxed', ['{', ('k1', 'bind'), ':', 'a', '}']),
+    ('boxed', ['function', '(', ('i', 'bind'), ')', 'i']),
+    ('context', ['{', ('k1', 'bind'), ':', 'a', ',', '"k2"', ':', 'k1', '}']),
+    ('context', ['{', '}']),
+    ('unary', ['-']),
+    ('unary', ['not', '(', 'a', ',', '<', 'b', ',', '[', '1', '..', '2', ']', ')']),
+    ('unary', ['<', 'a', '.', 'b', '.', 'c']),
+    ('unary', ['a', ',', 'b']),
+    # rejected by the grammar: both sides must reject
+    ('expr', ['a', 'instance', 'of', 'list', '<', '>']),
+    ('expr', ['[', 'a', ',', ']']),
+    ('expr', ['{', ('k1', 'bind'), ':', '}']),
+    ('expr', ['function', '(', ('i', 'bind'), ',', ')', 'i']),
+    ('expr', ['for', ('i', 'bind'), 'in', 'a', 'return']),
+    ('boxed', ['a', '+', 'b']),
+    ('textual', ['[', 'a', ']']),
+    ('context', ['[', 'a', ']']),
+    ('unary', ['not', '(', ')']),
+]
+# the tree the grammar dictates for each directed input (None: a syntax error), written down by reading feel.y; items in source order
+DIRECTED_EXPECTED = [
+    ['InstanceOf', ['Name', 'a'], ['ListType', ['FeelType', 'number']]],
+    ['InstanceOf', ['Name', 'a'], ['RangeType', ['FeelType', 'date']]],
+    ['Or', ['InstanceOf', ['Name', 'a'], ['ListType', ['ListType', ['FeelType', 'string']]]], ['Name', 'b']],
+    ['InstanceOf', ['Name', 'a'], ['ContextType', ['ContextTypeEntry', ['ContextTypeEntryKey', 'x'], ['FeelType', 'number']]]],
+    ['InstanceOf', ['Name', 'a'], ['ContextType', ['ContextTypeEntry', ['ContextTypeEntryKey', 'x'], ['FeelType', 'number']], ['ContextTypeEntry', ['ContextTypeEntryKey', 'y'], ['ListType', ['FeelType', 'string']]], ['ContextTypeEntry', ['ContextTypeEntryKey', 'z'], ['FeelType', 'Any']]]],
+    ['InstanceOf', ['Name', 'a'], ['FunctionType', ['ParameterTypes'], ['FeelType', 'number']]],
+    ['InstanceOf', ['Name', 'a'], ['FunctionType', ['ParameterTypes', ['FeelType', 'number']], ['FeelType', 'string']]],
+    ['InstanceOf', ['Name', 'a'], ['FunctionType', ['ParameterTypes', ['FeelType', 'number'], ['FeelType', 'string'], ['ListType', ['FeelType', 'date']]], ['RangeType', ['FeelType', 'number']]]],
+    ['InstanceOf', ['Name', 'a'], ['QualifiedName', ['QualifiedNameSegment', 'b']]],
+    ['InstanceOf', ['Name', 'a'], ['QualifiedName', ['QualifiedNameSegment', 'b'], ['QualifiedNameSegment', 'c']]],
+    ['InstanceOf', ['Name', 'a'], ['QualifiedName', ['QualifiedNameSegment', 'b'], ['QualifiedNameSegment', 'c'], ['QualifiedNameSegment', 'x']]],
+    ['FunctionDefinition', ['FormalParameters', ['FormalParameter', ['ParameterName', 'i'], ['FeelType', 'Any']], ['FormalParameter', ['ParameterName', 'j'], ['FeelType', 'number']]], ['FunctionBody', ['Context', ['ContextEntry', ['ContextEntryKey', 'java'], ['Context', ['ContextEntry', ['ContextEntryKey', 'class'], ['String', 'c']]]]], True]],
+    ['FunctionDefinition', ['FormalParameters'], ['FunctionBody', ['Name', 'a'], True]],
+    ['FunctionDefinition', ['FormalParameters', ['FormalParameter', ['ParameterName', 'i'], ['ListType', ['FeelType', 'number']]], ['FormalParameter', ['ParameterName', 'j'], ['ContextType', ['ContextTypeEntry', ['ContextTypeEntryKey', 'x'], ['FeelType', 'string']]]], ['FormalParameter', ['ParameterName', 'k'], ['FeelType', 'Any']]], ['FunctionBody', ['Name', 'a'], False]],
+    ['FunctionInvocation', ['Name', 'date'], ['PositionalParameters', ['String', '2021-02-03']]],
+    ['FunctionInvocation', ['Name', 'time'], ['PositionalParameters']],
+    ['FunctionInvocation', ['Name', 'date and time'], ['PositionalParameters', ['Name', 'a'], ['Name', 'b']]],
+    ['Add', ['FunctionInvocation', ['Name', 'duration'], ['NamedParameters', ['NamedParameter', ['ParameterName', 'from'], ['Name', 'a']]]], ['Name', 'b']],
+    ['Path', ['Path', ['Path', ['Name', 'a'], ['Name', 'b']], ['Name', 'c']], ['Name', 'x']],
+    ['In', ['Name', 'a'], ['ExpressionList', ['Range', ['IntervalStart', ['QualifiedName', ['QualifiedNameSegment', 'a']], False], ['IntervalEnd', ['QualifiedName', ['QualifiedNameSegment', 'b']], False]], ['Name', 'b'], ['UnaryLt', ['QualifiedName', ['QualifiedNameSegment', 'c'], ['QualifiedNameSegment', 'x']]]]],
+    ['List'],
+    ['Context'],
+    ['List', ['List'], ['Context'], ['List', ['Name', 'a']]],
+    ['FunctionInvocation', ['FunctionInvocation', ['FunctionInvocation', ['Name', 'a'], ['PositionalParameters']], ['PositionalParameters', ['Name', 'b']]], ['NamedParameters', ['NamedParameter', ['ParameterName', 'p'], ['Name', 'c']]]],
+    ['Range', ['IntervalStart', ['QualifiedName', ['QualifiedNameSegment', 'a']], False], ['IntervalEnd', ['QualifiedName', ['QualifiedNameSegment', 'b']], False]],
+    ['Range', ['IntervalStart', ['QualifiedName', ['QualifiedNameSegment', 'a'], ['QualifiedNameSegment', 'b']], True], ['IntervalEnd', ['String', 'z'], True]],
+    ['Add', ['Name', 'a'], ['Name', 'b']],
+    ['If', ['Name', 'a'], ['Name', 'b'], ['Name', 'c']],
+    ['ExpressionList', ['Name', 'a']],
+    ['ExpressionList', ['Name', 'a'], ['Add', ['Name', 'b'], ['Numeric', '1', '']], ['Name', 'a']],
+    ['List', ['Name', 'a'], ['Name', 'b']],
+    ['Context', ['ContextEntry', ['ContextEntryKey', 'k1'], ['Name', 'a']]],
+    ['FunctionDefinition', ['FormalParameters', ['FormalParameter', ['ParameterName', 'i'], ['FeelType', 'Any']]], ['FunctionBody', ['Name', 'i'], False]],
+    ['Context', ['ContextEntry', ['ContextEntryKey', 'k1'], ['Name', 'a']], ['ContextEntry', ['ContextEntryKey', 'k2'], ['Name', 'k1']]],
+    ['Context'],
+    ['Irrelevant'],
+    ['NegatedList', ['Name', 'a'], ['UnaryLt', ['QualifiedName', ['QualifiedNameSegment', 'b']]], ['Range', ['IntervalStart', ['Numeric', '1', ''], True], ['IntervalEnd', ['Numeric', '2', ''], True]]],
+    ['ExpressionList', ['UnaryLt', ['QualifiedName', ['QualifiedNameSegment', 'a'], ['QualifiedNameSegment', 'b'], ['QualifiedNameSegment', 'c']]]],
+    ['ExpressionList', ['Name', 'a'], ['Name', 'b']],
+    None,
+    None,
+    None,
+    None,
+    None,
+    None,
+    None,
+    None,
+    None,
+]
+DIRECTED_ATOMS = {'1': ['Numeric', '1', ''], '2': ['Numeric', '2', '']}
+
+
+def rule_action_names():
+    src = open(os.path.join(core.ROOT, 'coq', 'Gen', 'LalrTables.v')).read()
+    import re
+    m = re.search(r'Definition rule_actions[^\n]*', src)
+    return dict((int(n), a) for n, a in re.findall(r'\((\d+), "(\w+)"%string\)', m.group(0))) if m else {}
+
+
+def actions_section(ctx, cases, impl):
+    """Real parser vs parse_full (tables + every semantic action), node by node, on the generated cases of every kind and on the directed
+    inputs.  Returns (coverage dict, indices of cases where the two disagree)."""
+    texts = Texts()
+    idx, terms = [], []
+    limit = ctx.pick(8000, 60000)
+    order = sorted(range(len(cases)), key=lambda i: (cases[i].get('frag', False), i % 5))
+    for i in order:
+        c = cases[i]
+        if not c.get('toks') or len(terms) >= limit or classify(c) == 'between-lower-bound-and':
+            continue
+        term = full_tokens(c['toks'], c['mode'], atoms_of(c['tree']), texts)
+        if term:
+            idx.append(i)
+            terms.append('parse_trace %s' % term)
+    directed = []
+    for mode, spec in DIRECTED:
+        toks = spec_tokens(spec)
+        term = full_tokens(toks, mode, DIRECTED_ATOMS, texts)
+        directed.append({'text': ' '.join(x[0] for x in toks), 'mode': mode, 'term': term})
+        terms.append('parse_trace %s' % term)
+    res = ctx.run_model(HEADER_ACT, terms, shard_size=120, tag='act')
+    dgot = ctx.run_impl('ast', [{'bind': BIND, 'e': d['text'], 'mode': d['mode']} for d in directed])
+    names = rule_action_names()
+    seen, internal, disagree, checked, kinds = set(), 0, [], 0, {}
+
+    def outcome(r):
+        fres, trace = r
+        for x in trace:
+            if x in names:
+                seen.add(names[x])
+        if fres.name == 'FAccept':
+            return model_json(texts, fres.args[0]), None
+        return None, (None if fres.name == 'FSyntax' else '%s %s' % (fres.name, fres.args))
+
+    for i, r in zip(idx, res):
+        mj, odd = outcome(r)
+        c, got = cases[i], impl[i]
+        checked += 1
+        ctx.corr_checked += 1
+        kinds[c['tree'][0]] = kinds.get(c['tree'][0], 0) + 1
+        if odd:
+            internal += 1
+            ctx.corr_broken('actions model: internal failure %s' % odd, {'text': c['text']}, got.get('ast', got.get('err')), odd)
+        if got.get('ast') != mj:
+            disagree.append((i, mj))
+    for d, r, got, want in zip(directed, res[len(idx):], dgot, DIRECTED_EXPECTED):
+        mj, odd = outcome(r)
+        checked += 1
+        ctx.corr_checked += 1
+        ctx.evaluations += 1
+        if odd:
+            internal += 1
+        if got.get('ast') != want:
+            ctx.violation('input `%s` (entry point %s): the parser gives %s, the grammar dictates %s (tables + semantic actions model: %s)'
+                          % (d['text'], d['mode'], json.dumps(got.get('ast', got.get('err', got))), json.dumps(want) if want else 'a syntax error',
+                             json.dumps(mj) if mj else (odd or 'a syntax error')),
+                          {'text': d['text'], 'mode': d['mode'], 'rend': 'directed', 'expected': want, 'names_in_scope': NAMES}, impl=got)
+        elif got.get('ast') != mj or odd or 'panic' in got or 'crash' in got:
+            ctx.corr_broken('actions (directed input `%s`, entry point %s)' % (d['text'], d['mode']), {'text': d['text'], 'mode': d['mode']},
+                            got.get('ast', got.get('err', got)), mj if not odd else odd)
+        elif mj is not None:
+            ctx.nontrivial.add(d['text'])
+    missing = sorted(set(names.values()) - seen)
+    cov = {'actions_model_compared': checked, 'actions_model_by_kind': kinds, 'actions_exercised': '%d of %d' % (len(seen), len(set(names.values()))),
+           'actions_not_exercised': missing, 'actions_model_internal_failures': internal, 'actions_model_disagreements': len(disagree)}
+    return cov, disagree
 
 
 # ------------------------------------------------------------------------------------------------ the run
@@ -1042,6 +1353,10 @@ def run(ctx):
         if bool(a) != got_ok:
             acc_bad += 1
             ctx.corr_broken('acceptance', {'text': cases[i]['text']}, 'accepted' if got_ok else 'rejected', 'accepted' if a else 'rejected')
+    # the full model (tables + all 90 semantic actions, coq/C06/Actions.v) builds, node by node, the tree the real parser builds
+    act_cov, act_dis = actions_section(ctx, cases, impl)
+    for i, mj in act_dis:
+        cases[i]['actions_model'] = mj if mj is not None else 'rejected'
     hist = {}
     fails = []
     for c, got in zip(cases, impl):
@@ -1060,6 +1375,13 @@ def run(ctx):
         if cls and ctx.known(cls, c):
             continue
         fails.append((c, got, why))
+    # real parser != full model: when the real tree also differs from the generated tree the case is among `fails` (a VIOLATION naming the
+    # text, below); otherwise the property holds at this case and the correspondence parser <-> model is what broke
+    failing = set(id(c) for c, _, _ in fails)
+    for i, mj in act_dis:
+        if id(cases[i]) not in failing:
+            ctx.corr_broken('actions (tables + semantic actions model) on `%s`' % cases[i]['text'], {'text': cases[i]['text'], 'mode': cases[i]['mode']},
+                            impl[i].get('ast', impl[i].get('err', impl[i])), mj if mj is not None else 'rejected')
     # shrink: the smallest subtree that still fails in the same rendering, plain layout
     reported = 0
     for c, got, why in sorted(fails, key=lambda f: len(f[0]['text']))[:8]:
@@ -1078,20 +1400,25 @@ def run(ctx):
                     best = (x, g, w)
         bc, bg, bw = best
         ctx.violation('input `%s`: %s' % (bc['text'], bw), {'text': bc['text'], 'mode': bc['mode'], 'rend': bc['rend'], 'expected': bc['expected'],
-                                                          'model': bc.get('model', 'n/a'), 'names_in_scope': NAMES}, impl=bg)
+                                                          'model': bc.get('model', 'n/a'), 'actions_model': bc.get('actions_model', 'agrees with the parser' if 'toks' in bc else 'n/a'),
+                                                          'names_in_scope': NAMES}, impl=bg)
         reported += 1
     return ctx.finish(
         rule='syntax trees of the whole expression language (depth <= 5, all 14x14 ordered operator pairs in both nestings, between / unary minus / '
              'postfix neighbours, binders, collections, ranges, unary tests) rendered minimally, fully parenthesised and with each needed pair removed, '
              'layouts tight / single space / Unicode white space / comments / several comments in a row, comment bodies adversarial (runs of 0..6 stars after the opening and before the closing, slashes, terminator look-alikes, comment openers, quotes, CR/LF/CRLF/no line end at the end of input, non-ASCII); literals in every spelling; '
-             'non-trivial = distinct input texts of non-atomic trees',
-        extra_cov={'renderings': hist, 'model_rendered_fragment_trees': len(owners), 'model_decoded_string_literals': len(lits), 'model_skipped_layouts': len(gaps), 'tables_acceptance_checked': len(acc_cases), 'tables_acceptance_disagreements': acc_bad, 'model_failures': model_failures,
+             'every case with a token list is also parsed by the full model (tables + all semantic actions) and compared node by node, plus %d directed inputs over the six entry points; '
+             'non-trivial = distinct input texts of non-atomic trees' % len(DIRECTED),
+        extra_cov={'renderings': hist, 'model_rendered_fragment_trees': len(owners), 'model_decoded_string_literals': len(lits), 'model_skipped_layouts': len(gaps), 'tables_acceptance_checked': len(acc_cases), 'tables_acceptance_disagreements': acc_bad, 'model_failures': model_failures, **act_cov,
                    'tables': 'Gen/LalrTables.v regenerated from feel-parser/src/lalr.rs on this run (2312 pairs + 78608 triples re-proved when it changes)'},
         assumptions=['names are single words bound in the parsing scope (multi-word names are C10)',
                      'lexical rules of the text level applied by the renderer: a keyword is followed by white space; `and`/`between` at the top level of a '
                      'between lower bound is parenthesised; `x instance of T` is parenthesised before `.`; `function` is followed by `(` with only white space between'],
         trusted=['translators/lalr2coq.py (reads the const arrays, TokenType and the reduce arms of lalr.rs by stable syntax)',
-                 'harness sub-command dv ast (AstNode -> JSON tree)', 'Python renderer for the constructs outside the proved operator fragment'])
+                 'translators/lalr2coq.py reading of feel-grammar/src/feel.y (rules, mid-rule actions numbered as bison does; cross-checked against YY_R2, the reduce arms and their comments in lalr.rs, and again in coq/C06/ActionsProofs.v against YY_R1/YY_R2)',
+                 'harness sub-command dv ast (AstNode -> JSON tree)', 'Python renderer for the constructs outside the proved operator fragment',
+                 'Python tokeniser of the rendered token lists for the full model (token types from the renderer flags, token values from the generated literals); the lexer itself is exercised only through the real parser',
+                 'hand-reviewed expected trees of the directed inputs (props/c06.py DIRECTED_EXPECTED)'])
 
 
 def replay(ctx, path):
@@ -1116,5 +1443,5 @@ def replay(ctx, path):
 
 MANIFEST = dict(
     technique='Coq proof (round trip of a precedence-climbing Spec parser for all trees; finite theorem on the LALR tables regenerated from lalr.rs every run) with parser/model correspondence',
-    text='coq/Props/C06.v: the committed LALR tables, translated from feel-parser/src/lalr.rs on every run, are proved (vm_compute, bound stated) to build on every ordered pair and triple of operators the tree the Spec parser dictates; the Spec theorems hold for all trees of the operator fragment (no bound): both renderings round-trip (C06_roundtrip_*_tokens), and every pair of parentheses of the minimal rendering is needed (C06_needed_paren / C06_needed_paren_at / C06_all_needed, from the counting soundness invariant C06_min_rendering_minimal: any token list that parses to t has at least the parentheses of render_min t); string-literal decoding has its own model. The real lexer, driver and actions are tied to the Spec by parsing generated trees of the whole language in minimal / full / one-pair-removed renderings under token-preserving layouts and comparing AstNode trees.',
+    text='coq/Props/C06.v: the committed LALR tables, translated from feel-parser/src/lalr.rs on every run, are proved (vm_compute, bound stated) to build on every ordered pair and triple of operators the tree the Spec parser dictates; the Spec theorems hold for all trees of the operator fragment (no bound): both renderings round-trip (C06_roundtrip_*_tokens), and every pair of parentheses of the minimal rendering is needed (C06_needed_paren / C06_needed_paren_at / C06_all_needed, from the counting soundness invariant C06_min_rendering_minimal: any token list that parses to t has at least the parentheses of render_min t); string-literal decoding has its own model. The real lexer, driver and actions are tied to the Spec by parsing generated trees of the whole language in minimal / full / one-pair-removed renderings under token-preserving layouts and comparing AstNode trees. coq/C06/Actions.v models the whole parser on token lists (the loop of Parser::parse over the regenerated tables with all 90 reduce actions of parser.rs, selected by the action names read from lalr.rs): every generated case of every construct and directed inputs for types, external bodies, date and time literals and the six entry points are run through it and compared node by node with the real parser.',
     note='Trusted: Coq kernel + vm_compute, lalr2coq.py, the Spec reading of feel.y lines 73-90, harness dv ast, Python renderer for binders/collections (not covered by the Spec theorems).')
